@@ -53,6 +53,11 @@ func genMux(seed uint64, n int, maxOps int, demux bool, emit func(interface{})) 
 			emit(sc)
 			continue
 		}
+		if s%12 == 11 {
+			genMuxLowPID(r, &sc, s/12)
+			emit(sc)
+			continue
+		}
 		nops := r.rangeInt(3, maxOps)
 		var live []int // pids as addressed in the scenario (explicit or -k)
 		autoN := 0
@@ -181,6 +186,22 @@ func genMuxReuseAndWidePID(r *rng, sc *muxScenario, demux bool) {
 			pid = wide
 		}
 		sc.Ops = append(sc.Ops, muxOp{Op: "data", PID: pid, Len: r.pick(1, 100, 184, 185, 400, 1000), Hdr: hdr, AF: af})
+	}
+}
+
+// genMuxLowPID: an elementary stream on an explicit PID at the bottom of the range (ISO-reserved 0x01..0x0f, the DVB SI PIDs 0x10..0x1f
+// which the Demuxer reads as PSI whatever the PMT says, and the first free ones): the stream is either refused or comes back (C01)
+func genMuxLowPID(r *rng, sc *muxScenario, k int) {
+	lows := []int{0x11, 0x10, 0x12, 0x13, 0x14, 0x1e, 0x1f, 0x01, 0x02, 0x0f, 0x15, 0x1d, 0x20, 0x21}
+	low := lows[k%len(lows)]
+	sc.Ops = append(sc.Ops, muxOp{Op: "add", PID: 0x100, ST: 27, DK: "none"}, muxOp{Op: "setpcr", PID: 0x100},
+		muxOp{Op: "add", PID: low, ST: 15, DK: r.pickS("none", "si")}, muxOp{Op: "tables"})
+	for i, n := 0, r.rangeInt(6, 12); i < n; i++ {
+		pid := 0x100
+		if i%2 == 1 {
+			pid = low
+		}
+		sc.Ops = append(sc.Ops, muxOp{Op: "data", PID: pid, Len: r.pick(1, 100, 184, 185, 400, 1000), Hdr: r.pickS("pts", "ptsdts", "none"), AF: r.pickS("none", "rai", "raipcr")})
 	}
 }
 
